@@ -95,6 +95,15 @@ HARNESS = r'''
             None => { assert!(headers.get(&h1.block_hash).copied() == before1 && headers.get(&h2.block_hash).copied() == before2); }   // nothing is consumed by a blob that does not verify
         }
     }
+    #[kani::proof]
+    #[kani::unwind(34)]
+    fn canary_header_consumed_reachable() {
+        unsafe { N_AUDITS = 0; AUDITS = [None; 4]; }
+        let rollup = SubmittedRollupData { sequencer_block_hash: block::Hash(kani::any()), rollup_id: RollupId(kani::any()), transactions: TxList(kani::any()), proof: ProofId(kani::any()) };
+        let h1 = SubmittedMetadata { block_hash: block::Hash(kani::any()), rollup_transactions_root: kani::any() };
+        let mut headers = HashMap { items: [Some((h1.block_hash, h1)), None] };
+        assert!(remove_header_blob_matching_rollup_blob(&mut headers, &rollup).is_none());    // must FAIL: a verified matching blob consumes its header
+    }
     // ---- astria-core: per-rollup data of a served block is checked against the header root with its own id and its own transactions ----
     #[kani::proof]
     #[kani::unwind(34)]
@@ -121,6 +130,7 @@ UNIT = dict(
     harnesses=[
         dict(name="rollup_blob_is_bound_to_header_root", obligation="reconstruct::verify_rollup_blob_against_sequencer_blob::ensures#audits-own-proof+this-root+leaf==id‖MTH(own-txs)"),
         dict(name="header_is_consumed_only_by_a_verified_matching_blob", obligation="reconstruct::remove_header_blob_matching_rollup_blob::ensures#Some=>same-block-hash+audited;None=>map-unchanged"),
+        dict(name="canary_header_consumed_reachable", expect="fail"),
         dict(name="rollup_transactions_match_root_binding", obligation="sequencerblock::v1::do_rollup_transactions_match_root::ensures#audits-own-proof+given-root+leaf==id‖MTH(own-txs)"),
     ],
     assumptions=["Merkle audits are opaque predicates with an arbitrary verdict, logged with proof, root and leaf bytes; that a verifying audit implies membership of exactly that leaf is property C08 (H-inj)",
